@@ -13,10 +13,10 @@ def run_jobs(prop, tier, jobs, extra_props=("SCHED", "RACE", "UAF", "POSIX", "ME
     acc = common.Acc()
     exes = {}
     for j in jobs:
-        key = (j["src"], j.get("atomic", "c11"), j.get("rwlock", "posix"), bool(j.get("ipc")))
+        key = (j["src"], j.get("atomic", "c11"), j.get("rwlock", "posix"), bool(j.get("ipc")), bool(j.get("ksim")))
         if key not in exes:
             exes[key] = build.build_mc_exe(os.path.basename(j["src"])[:-2], [j["src"]], atomic=key[1], rwlock=key[2],
-                                           extra_plain=j.get("extra_plain", ()), extra_wraps=j.get("extra_wraps", ()), ipc=bool(j.get("ipc")))
+                                           extra_plain=j.get("extra_plain", ()), extra_wraps=j.get("extra_wraps", ()), ipc=bool(j.get("ipc")), ksim=bool(j.get("ksim")))
         j["exe"] = exes[key]
         j["name"] = "%s[%s,%s] %s" % (os.path.basename(j["src"])[:-2], key[1], key[2], " ".join(map(str, j["args"])))
 
@@ -49,5 +49,5 @@ def replay(prop, path):
     args = r["replay"].split()
     var = job.split("[")[1].split("]")[0].split(",") if "[" in job else ["c11", "posix"]
     src = "harness/%s.c" % args[0]
-    exe = build.build_mc_exe(args[0], [src], atomic=var[0], rwlock=var[1])
+    exe = build.build_mc_exe(args[0], [src], atomic=var[0], rwlock=var[1], ipc=(args[0] == "sched_ipc"), ksim=(args[0] in ("sched_c09", "sched_c10")))
     return subprocess.call([exe] + args[1:])
